@@ -152,8 +152,8 @@ func bulkBuiltArgs() []any {
 	for _, a := range []string{"t", "limA", "A:t", "Mc:t,u5", "s:A:h,h", "M:t"} {
 		args = append(args, c17Arg{T: 256, Mode: "arr-streams-nested", Prefix: []string{a}, MaxLen: 5})
 	}
-	for _, a := range []string{"t", "limM", "limM+", "mid"} {
-		for _, b := range []string{"t", "limM", "limM+", "mid"} {
+	for _, a := range mapStreamClasses {
+		for _, b := range mapStreamClasses {
 			args = append(args, c17Arg{T: 256, Mode: "map-streams", Prefix: []string{a, b}, MaxLen: 5})
 		}
 	}
